@@ -222,7 +222,7 @@ TRUSTED_BASE = [
     'subscriber contract assumed by the model: Close() returns; the channel closes after Close() was called or (ctx-honouring subscribers) after the Subscribe context ended; handlersLock is folded into closedLock '
     '(AddHandler/RunHandlers/Stop concurrent with Close are outside the model: C10)',
     'the stamp discipline (acquire: stamp after; release: stamp before; close(closingInProgressCh) placed as late as the log allows; pump steps without a hook inserted as late as possible) and the Python mapper checks/c06.py',
-    'Router/CloseMonitor.v mon_run: proved to accept every trace of the repaired model for the safety codes (1,2,3,11,12,14); codes 4-8 (subscriber/publisher Close() calls) are executable oracles on the implementation history',
+    'Router/CloseMonitor.v mon_run is an executable oracle on the implementation history (not proved equivalent to the model theorems); it is also evaluated on the MODEL\'s own trace of every replayed schedule (must accept for the repaired variant) and proved to reject the D5/D12 witness traces',
 ]
 ASSUMPTIONS = [
     '"every Close call returns" on the implementation is a watchdog (CloseTimeout + 4 s); "Close times out although nothing runs" is judged structurally (a subscriber that was never asked to close), never by wall-clock alone',
